@@ -91,6 +91,41 @@ class ReprObj:
         return self.s
 
 
+# ---- unusual but valid input classes -----------------------------------------------------
+# A plain string child / attribute value may be an instance of a str SUBCLASS, trusted markup an
+# instance of an HTML subclass, a self-rendering object may happen to have an attribute called
+# add_ws: the library must treat them as str / HTML / a self-rendering object.  Which variant is
+# built is a function of the text (so building the same description twice gives the same kinds).
+class StrSub(str):
+    """a str subclass carrying an extra attribute"""
+    note = "subclass"
+
+
+class HtmlSub(HTML):
+    """a user subclass of HTML()"""
+
+
+class ReprObjWs(ReprObj):
+    """a self-rendering object (NOT a Tag) that happens to have a truthy add_ws attribute"""
+    add_ws = True
+
+
+def _pick(s: str) -> int:
+    return (sum(map(ord, s)) * 31 + len(s) * 7) % 997
+
+
+def mk_text(s: str):
+    return StrSub(s) if _pick(s) % 5 == 0 else s
+
+
+def mk_html(s: str):
+    return HtmlSub(s) if _pick(s) % 5 == 1 else HTML(s)
+
+
+def mk_repr(s: str):
+    return ReprObjWs(s) if _pick(s) % 4 == 0 else ReprObj(s)
+
+
 class CustomObj:
     """Tagifiable (not a Tag): tagify() returns a TagList of the expansion, or its only
     element."""
@@ -114,6 +149,15 @@ class CustomObj:
         return fresh(self.exp[0])
 
 
+class CustomStrObj(str):
+    """an object that is BOTH a str (subclass instance) and tagifiable: tagify() decides"""
+    exp: list = []
+    as_list = True
+
+    def tagify(self):
+        return CustomObj.tagify(self)
+
+
 class CustomReprObj(CustomObj):
     def __init__(self, exp: list, as_list: bool, s: str):
         super().__init__(exp, as_list)
@@ -126,11 +170,11 @@ class CustomReprObj(CustomObj):
 def build(d: Any) -> Any:
     k = d[0]
     if k == "T":
-        return d[1]
+        return mk_text(d[1])
     if k == "H":
-        return HTML(d[1])
+        return mk_html(d[1])
     if k == "R":
-        return ReprObj(d[1])
+        return mk_repr(d[1])
     if k == "M":
         if d[1] is None:
             return MetadataNode()
@@ -140,12 +184,16 @@ def build(d: Any) -> Any:
         t = Tag(name, *[build(x) for x in kids], _add_ws=ws)
         for key, (m, v) in attrs:
             # stored as is (bypassing name normalisation, which is C15's subject)
-            dict.__setitem__(t.attrs, key, HTML(v) if m == "H" else v)
+            dict.__setitem__(t.attrs, key, mk_html(v) if m == "H" else mk_text(v))
         return t
     if k == "C":
         _, sh, exp, as_list = d
         exp_b = [build(x) for x in exp]
         if sh is None:
+            if len(exp_b) == 2 and as_list:      # some objects are str subclasses that define tagify()
+                o = CustomStrObj("<own text>")
+                o.exp, o.as_list = exp_b, True
+                return o
             return CustomObj(exp_b, as_list)
         return CustomReprObj(exp_b, as_list, sh)
     raise ValueError(d)
